@@ -118,11 +118,11 @@ impl MultiPeerBackend for SubSocketBackend {
         };
     }
 
-    fn peer_disconnected(&self, peer_id: &PeerIdentity) {
+    async fn peer_disconnected(&self, peer_id: &PeerIdentity) {
         if let Some(monitor) = self.monitor().lock().as_mut() {
             let _ = monitor.try_send(SocketEvent::Disconnected(peer_id.clone()));
         }
-        self.peers.remove_sync(peer_id);
+        self.peers.remove_async(peer_id).await;
     }
 }
 
@@ -212,7 +212,7 @@ impl SocketRecv for SubSocket {
                     // not internal protocol frames like commands or greetings.
                 }
                 Some((peer_id, Err(e))) => {
-                    self.backend.peer_disconnected(&peer_id);
+                    self.backend.peer_disconnected(&peer_id).await;
                     // Handle potential errors from the fair queue
                     return Err(e.into());
                 }
